@@ -382,10 +382,14 @@ class CallMixin:
                 return o.dictkeys[args[0].const]
         res = self._ext_result(spec, "." + name, recv, args, kwargs, deps, node)
         self._ext_mutations(spec, "." + name, recv, args, kwargs, node)
-        if name in ("transform", "fit_transform", "inverse_transform") and args and self._inplace_estimator(recv):
+        if name in ("transform", "fit_transform", "inverse_transform") and args and \
+                self._inplace_estimator(recv, "copy"):
             # sklearn transformers built with copy=False work on their operand in place and return it
             self._mut_store(args[0], "mutcall:%s(copy=False)" % name, EMPTY, node)
             res = Val(refs=args[0].refs, locs=args[0].locs, deps=res.deps, tags=res.tags)
+        if name in ("fit", "fit_predict", "fit_transform") and args and self._inplace_estimator(recv, "copy_x"):
+            # KMeans(copy_x=False) centres the data it is given in place (and adds the mean back, with rounding)
+            self._mut_store(args[0], "mutcall:%s(copy_x=False)" % name, EMPTY, node)
         is_draw = spec.get("draw") and any(self.obj(r).cls == "ext:numpy.random.Generator" for r in recv.refs)
         if spec.get("draw") and not is_draw and recv.locs and not recv.refs:
             is_draw = any(steps and steps[-1] == ".rng" for _, steps in recv.locs)
@@ -396,7 +400,7 @@ class CallMixin:
                   spec=spec)
         return res
 
-    def _inplace_estimator(self, recv: Val) -> bool:
+    def _inplace_estimator(self, recv: Val, kw="copy") -> bool:
         for r in recv.refs:
             o = self.obj(r)
             if not (o.cls or "").startswith("ext:sklearn."):
@@ -404,7 +408,7 @@ class CallMixin:
             ck = o.fields.get("<ctor-kwargs>")
             if ck is None or ck.extra is None:
                 continue
-            cp = ck.extra[1].get("copy")
+            cp = ck.extra[1].get(kw)
             if cp is not None and not (cp.has_const and cp.const is True):
                 return True
         return False
